@@ -4,21 +4,24 @@
 EXTENDS Integers
 \* ---- what the statement says about a row
 LinkAddressed(r) == r.m = "ip" \/ r.ld \in {"own", "bcast", "mcast"}
-UnicastDst(r) == r.d \in {"own", "own-ll"}
+UnicastDst(r) == r.d \in {"own", "own-ll", "own2"}      \* own2: a second address of the interface (sockets bound to the first must not see it)
 GroupOrBcastDst(r) == r.d \in {"net-bcast", "lim-bcast", "mc-all", "all-nodes", "sol-node"}
 IpAddressed(r) == UnicastDst(r) \/ GroupOrBcastDst(r)
 Addressed(r) == LinkAddressed(r) /\ IpAddressed(r)
 \* loopback and the interface's own address are unicast addresses (martian sources, but not "non-unicast")
 UnicastSrc(r) == r.s \in {"uni-on", "uni-off", "uni", "ll", "loop", "own"}
-IsTcp(r) == r.p \in {"syn-open", "syn-closed", "ack-closed", "rst-closed"}
+IsTcp(r) == r.p \in {"syn-open", "syn-bound", "syn-closed", "ack-closed", "rst-closed"}
 IsError(r) == r.p \in {"icmp-err", "rst-closed"}
 Broken(r) == r.c \in {"ip-hdr", "l4"} \/ (r.c = "udp0" /\ r.v = 6)
 \* may the stack answer with a TCP reset or an ICMP error?
 MayErrorReply(r) == Addressed(r) /\ UnicastDst(r) /\ UnicastSrc(r) /\ ~IsError(r) /\ ~Broken(r) /\ (r.m = "ip" \/ r.ld = "own" \/ TRUE)
 \* may any socket be handed the packet / change state?
 MayDeliver(r) == Addressed(r) /\ ~Broken(r)
-MayChangeTcp(r) == Addressed(r) /\ UnicastDst(r) /\ r.p = "syn-open" /\ ~Broken(r)
-MayDeliverUdp(r) == MayDeliver(r) /\ r.p = "udp-open"
+\* "-bound": the port of a socket bound to the interface's first address only
+MayChangeTcp(r) == Addressed(r) /\ UnicastDst(r) /\ ~Broken(r) /\ (r.p = "syn-open" \/ (r.p = "syn-bound" /\ r.d # "own2"))
+MayDeliverUdp(r) == MayDeliver(r) /\ (r.p = "udp-open" \/ (r.p = "udp-bound" /\ r.d # "own2"))
+\* queries and solicitations: a reply is a group report / neighbour advertisement, which a corrupted one must not draw
+IsQuery(r) == r.p \in {"ns", "mld-query", "igmp-query"}
 \* may anything at all be emitted in response?
 MayReplyAtAll(r) == Addressed(r) /\ ~Broken(r)
 
